@@ -199,7 +199,7 @@ pub fn run(tier: Tier, seed: u64, findings: &Findings) -> i32 {
     let check = C06 { cfg: wc, max_steps: 4 };
     let mut report = engine::Report::default();
     report.merge(super::run_regress(&check, &cfg, findings));
-    let cases = tier.pick(6000, 300_000);
+    let cases = tier.pick(30_000, 400_000);
     report.merge(engine::run_generated(&check, &cfg, cases, 8, 16, findings, 0));
     engine::finish(
         Finish {
